@@ -12,6 +12,10 @@ claimed = {
              text='Every PacketQueue method is proved against its contract over the abstract stream view: reads return exactly the next bytes across packet boundaries (typed reads with little-endian composition), a failed read reports ErrNotEnoughBytes, AddPacket/Discard/SetPosition/Reset keep the representation invariant and the unread bytes, Read fills the caller buffer, writes append to the output stream in packets of the current size. Proof level: per-method pre/postconditions and invariants, unbounded in sizes and iteration counts.',
              note='Assumes one goroutine per queue, a queue used under one discipline (read or write), the packet-size function contract (range 9..65535, see C08), no aliasing between caller buffers and queued packet bodies. Obligations above the per-tier claim threshold are listed as unclaimed in the evidence (WriteBytes content clause at the loop exit).',
              ref='3 C15'),
+ 'C16': dict(tech='contract-based deductive verification for construction, error propagation and slicing safety (VCs from go/ssa, z3/cvc5); bounded exhaustive execution (labelled bounded) for the digit-level claims',
+             text='Proved for all inputs: NewDecimal/sanity succeed exactly for 0 <= scale <= precision <= 38, NewDecimalString propagates both errors and returns nil on error, String never slices outside its digit string for a well-formed decimal, SetString leaves the decimal unchanged on error. The digit-level statements (exact expansion, canonical text, parse(format(d)) == d, rejection of unrepresentable numerals) are decided only on a stated finite domain by executing the real functions against math/big.Rat; that part is bounded, not proved.',
+             note='Bounded part: all 741 (precision, scale) pairs, boundary values {0, 1, 7, 10^k, 10^k-1}, both signs, with/without spaces, leading and trailing zeros; other digit strings are not covered. Library contracts (math/big, strings, fmt width padding) are assumed. Two genuine defects were repaired (negative scale; SetString accepting unrepresentable numerals).',
+             ref='3 C16'),
  'C18': dict(tech='contract-based deductive verification of the sequential methods (pre/postconditions, type invariants, frame), VCs from go/ssa, z3/cvc5',
              text='Sequential contracts of the name pool are proved for all inputs: the minting closure returns a fresh cell holding counter+1, Acquire returns a fresh Name with a non-nil id, Release clears the Name, and releasing nil or an already released Name is a no-op so no nil id enters the pool. Proof level for these per-method statements.',
              note='Not decided: uniqueness of ids among concurrent holders under arbitrary schedules (goroutines are not modelled; the lifting from one-atomic-action-per-method to all histories is an unchecked argument in DESIGN.md). Assumes the sync.Pool Get/Put contract and atomicity of sync/atomic.',
